@@ -564,7 +564,7 @@ def fn_circuits(items):
             if not bad:
                 keys.add(hash(stab.key_arrays(state.gs, state.ps, state.r)))
         if first is not None:
-            viol.append(V('C16/circuit/%s/%s/invalid-state' % (name, dirn), item,
+            viol.append(V('C16/circuit/%s/invalid-state' % name, item,
                           '%s(%d).%s(zero_state) under numba coins %s / numpy coins %s: %s' % (name, N, dirn, first[0], first[1], first[2])))
         k = '%s_N%d_%s' % (name, N, dirn)
         extra[k + '_leaves'] = extra.get(k + '_leaves', 0) + st['leaves']
